@@ -137,3 +137,6 @@ func VerifInterpEvents(bin []byte, export string, nfuncs int, args []uint64) (re
 	}
 	return res, VerifTrapKind(err), events, true
 }
+
+// VerifAddPassiveData adds a data-count section and one passive data segment to an encoded module.
+func VerifAddPassiveData(bin []byte, data []byte) []byte { return verifAddPassiveData(bin, data) }
